@@ -461,7 +461,7 @@ func ruleRetransmit(c *RC) *RuleResult {
 // ---- C02 / C01: acceptance ----
 
 func init() {
-	propertyRules["C02"] = []ruleFn{ruleAcceptSite, ruleAccept, rulePreAccept, ruleSlot, ruleTip, ruleProposalFields}
+	propertyRules["C02"] = []ruleFn{ruleAcceptSite, ruleAccept, rulePreAccept, ruleSlot, ruleVerifyOnStore, ruleRevalidate, ruleTip, ruleProposalFields, ruleViewResetCover}
 	propertyExplain["C02"] = "ProcessBlock/ProcessPreBlock have one call site each, proven to be behind an M-of-N quorum counted over current-view entries of the per-validator (pre)commit table with all transactions present; every non-nil store into a per-validator payload table is keyed by the payload's own validator index (distinct validators); block fields PrevHash/BlockIndex come from the ledger callbacks at the height reset and Timestamp/Nonce/TransactionHashes only from the accepted proposal or the proposal builder. Cryptographic soundness of Verify callbacks is not decided."
 }
 
@@ -747,4 +747,149 @@ func orderedFill(fn *FuncInfo) bool {
 		return true
 	})
 	return found
+}
+
+// verification routines: functions ranging a (pre)commit table, calling Verify and nil-ing entries.
+func (c *RC) verifyRoutines() map[*FuncInfo]string {
+	out := map[*FuncInfo]string{}
+	for _, fn := range c.Prog.dbftFuncs() {
+		table, verify := "", false
+		for _, s := range c.A.FnSites[fn] {
+			if s.Kind == "write" && s.Store == KillNil && (s.Loc == "ctx.CommitPayloads" || s.Loc == "ctx.PreCommitPayloads") {
+				for _, sn := range s.Snaps {
+					if sn.Idx != nil && strings.HasPrefix(sn.Idx.Name, "rangekey:") {
+						table = s.Loc
+					}
+				}
+			}
+			if s.Kind == "call" && (s.Callee == "if:Block.Verify" || s.Callee == "if:PreBlock.Verify") {
+				verify = true
+			}
+		}
+		if table != "" && verify {
+			out[fn] = table
+		}
+	}
+	return out
+}
+
+// D-REVALIDATE: a call of a verification routine happens in a state where the header / pre-block it verifies
+// against can be obtained; otherwise the call verifies nothing.
+func ruleRevalidate(c *RC) *RuleResult {
+	r := &RuleResult{Rule: "D-REVALIDATE", Kind: "DEADCALL", Doc: "every call of a (pre)commit re-validation routine is made where its header/pre-block is obtainable: proposal recorded, and for the header under anti-MEV the pre-block processed"}
+	vr := c.verifyRoutines()
+	if len(vr) < 2 {
+		r.unresolved(fmt.Sprintf("re-validation routines (found %d, expected 2)", len(vr)))
+	}
+	n := 0
+	for fn, table := range vr {
+		for _, cs := range c.A.callers[fn] {
+			n++
+			r.Sites++
+			d := c.A.newDemand(c.apiList)
+			g := func(sn *Snap) *Formula {
+				if table == "ctx.CommitPayloads" {
+					return fAnd(fRSR(), fOr(fNot(fAMEV()), bl(fld("ctx.preBlockProcessed", false))))
+				}
+				return fRSR()
+			}
+			if f := d.ProveAt(cs, g); f == nil {
+				r.ok(fmt.Sprintf("%s -> %s: header/pre-block obtainable at the call", cs.Fn.Name, fn.Name))
+			} else {
+				r.fail(cs.Fn.Name+"->"+fn.Name, c.Prog.Pos(cs.Node), "the re-validation call cannot verify anything in this state (no header/pre-block can be built): "+f.String())
+			}
+		}
+	}
+	if n < 3 {
+		r.unresolved("call sites of re-validation routines")
+	}
+	return r
+}
+
+// G-VERIFY-ON-STORE: after a received current-view (pre)commit is stored, the acceptance test is reached only after
+// Verify returned nil for it.
+func ruleVerifyOnStore(c *RC) *RuleResult {
+	r := &RuleResult{Rule: "G-VERIFY-ON-STORE", Kind: "GUARD", Doc: "handler of a received (pre)commit: the quorum/acceptance check is called only after Block.Verify / PreBlock.Verify returned nil for that payload; a failed verification removes the entry"}
+	hs := c.handlers()
+	for _, k := range []struct{ kind, table, verify string }{{"CommitType", "ctx.CommitPayloads", "if:Block.Verify"}, {"PreCommitType", "ctx.PreCommitPayloads", "if:PreBlock.Verify"}} {
+		h := hs[k.kind]
+		if h == nil {
+			r.unresolved("handler of " + k.kind)
+			continue
+		}
+		// calls that may reach the acceptance callbacks
+		n := 0
+		for _, s := range c.A.FnSites[h] {
+			if s.Kind != "call" || s.Target == nil || !c.reachesAccept(s.Target) {
+				continue
+			}
+			for _, sn := range s.Snaps {
+				n++
+				r.Sites++
+				okk := false
+				for kf, v := range sn.F.m {
+					if !v && strings.HasPrefix(kf, "l:"+k.verify+":") && strings.HasSuffix(kf, "!=nil") {
+						okk = true
+					}
+				}
+				if okk {
+					r.ok(fmt.Sprintf("%s: %s reached only after %s returned nil", h.Name, s.Callee, k.verify))
+				} else {
+					r.fail(h.Name+"/accept-without-verify", c.Prog.Pos(s.Node), "the acceptance check is reachable for a freshly stored "+k.kind+" payload without a successful "+k.verify+": {"+sn.Trail+"}")
+				}
+			}
+		}
+		if n == 0 {
+			r.unresolved("acceptance check call in the handler of " + k.kind)
+		}
+		// exits where Verify failed have the entry removed
+		r.Sites++
+		bad := ""
+		nf := 0
+		for _, e := range c.exitsOf(h) {
+			failed := false
+			for kf, v := range e.F.m {
+				if v && strings.HasPrefix(kf, "l:"+k.verify+":") && strings.HasSuffix(kf, "!=nil") {
+					failed = true
+				}
+			}
+			if !failed {
+				continue
+			}
+			nf++
+			if e.Killed[k.table]&KillNil == 0 {
+				bad = "{" + strings.Join(e.Trail, "; ") + "}"
+			}
+		}
+		if nf == 0 {
+			bad = "no path tests the result of " + k.verify
+		}
+		if bad == "" {
+			r.ok(h.Name + ": a failed " + k.verify + " removes the stored entry")
+		} else {
+			r.fail(h.Name+"/failed-verify-kept", c.Prog.Pos(h.Decl), "a payload whose verification failed stays stored on path "+bad)
+		}
+	}
+	return r
+}
+
+func (c *RC) reachesAccept(fn *FuncInfo) bool {
+	seen := map[*FuncInfo]bool{}
+	var visit func(f *FuncInfo) bool
+	visit = func(f *FuncInfo) bool {
+		if seen[f] {
+			return false
+		}
+		seen[f] = true
+		for _, s := range c.A.FnSites[f] {
+			if s.Kind == "call" && (s.Callee == "cb:ProcessBlock" || s.Callee == "cb:ProcessPreBlock") {
+				return true
+			}
+			if s.Target != nil && visit(s.Target) {
+				return true
+			}
+		}
+		return false
+	}
+	return visit(fn)
 }
